@@ -351,6 +351,10 @@ def guard_rule(rep, prog, oks):
         if p is None:
             continue
         ip, outs = run_fmt(prog, p)
+        _st0 = State()
+        for f in p.facts:
+            _st0.pc.apply_fact(f)
+        base_len = len(_st0.pc.log)
         fields = [l for l in p.leaves if "adsb_deku::AC13Field" in l.adts]
         for o in outs:
             frame = None
@@ -385,13 +389,15 @@ def guard_rule(rep, prog, oks):
                 alt_atoms = alt.deps
             if True:
                 if alt_atoms:
-                    ag = [f[1] for f in o.pc.log if f[0] == "guard" and f[1].get("deps") and f[1]["deps"] <= alt_atoms and not f[1].get("float")]
-                    pos = [g for g in ag if g.get("op") in ("Gt", "Ne", "Ge")]
-                    neg = [g for g in ag if g.get("op") in ("Le", "Eq", "Lt")]
-                    if present and not pos:
-                        rep.violation("R3", "guard:altitude-line:%s:untested-present" % lab, "%s prints the altitude line on a path that never tested the decoded altitude for being non-zero" % lab)
-                    if not present and not neg:
-                        rep.violation("R3", "guard:altitude-line:%s:untested-absent" % lab, "%s omits the altitude line on a path that never found the decoded altitude to be zero (the line depends on something other than altitude > 0)" % lab)
+                    # facts the rendering added to the path (beyond the decode path's own) that speak about the altitude bits only:
+                    # a comparison guard, or the condition of the altitude alternative the path selected (metric / illegal -> 0, ...)
+                    from ..ai.pathcond import facts_atoms
+                    added = list(o.pc.log[base_len:])
+                    tests = [f for f in added if facts_atoms([f]) and facts_atoms([f]) <= alt_atoms]
+                    other = [f for f in added if facts_atoms([f]) and not (facts_atoms([f]) <= alt_atoms) and f[0] == "guard"]
+                    if not tests:
+                        rep.violation("R3", "guard:altitude-line:%s:%s" % (lab, "untested-present" if present else "untested-absent"),
+                                      "%s %s the altitude line on a path that never looked at the decoded altitude (the line depends on something other than altitude > 0)" % (lab, "prints" if present else "omits"))
     # velocity: report vs "Invalid packet"
     lab = "DF::ADSB/ME::AirborneVelocity/AirborneVelocitySubType::GroundSpeedDecoding"
     p = reps.get(lab)
